@@ -17,6 +17,9 @@ def jobs(tier, seed):
     for v in VERSIONS:
         for fl in ("sync", "async"):
             out.append({"kind": "last-change", "version": v, "flavour": fl})
+    # real threads: the real poll thread handles a flood of messages while the real timer thread saves every few ms
+    for i in range(6 if q else 24):
+        out.append({"kind": "real-threads", "seed": seed * 100 + i, "version": VERSIONS[i % 5], "ext": ["json", "pickle"][i % 2]})
     return out
 
 
@@ -78,16 +81,140 @@ def last_kind(steps, version):
     return None
 
 
+def run_real_threads(job, res, tmp):
+    """The real threaded gateway with its real poll thread and real threading.Timer save chain (period shortened from
+    10 s to 5 ms): messages are handled WHILE saves run. After the queue has drained: stop(), then a fresh gateway loads the
+    file; it must reproduce what the first one held when it stopped."""
+    import random
+    import threading
+    import time
+    import mysensors.persistence as mp
+    import mysensors.task as mtask
+    from mysensors import BaseSyncGateway
+    from ..drive import RecT, projection, strict
+
+    version, ext = job["version"], job["ext"]
+    rng = random.Random(job["seed"])
+    path = os.path.join(tmp, f"rt{os.getpid()}.{ext}")
+
+    class FastTimer(threading.Timer):
+        def __init__(self, interval, function, args=None, kwargs=None):
+            super().__init__(0.005 if interval == 10.0 else interval, function, args, kwargs)
+
+    class Threading:
+        Timer = FastTimer
+
+        def __getattr__(self, n):
+            return getattr(threading, n)
+
+    stats = {"saves": 0, "save_errors": 0, "saves_overlapping_a_message": 0}
+    in_save = [False]
+    orig_save = mp.Persistence.save_sensors
+
+    def save(self):
+        if not self.need_save:
+            return orig_save(self)
+        stats["saves"] += 1
+        in_save[0] = True
+        try:
+            return orig_save(self)
+        except BaseException:
+            stats["save_errors"] += 1
+            raise
+        finally:
+            in_save[0] = False
+
+    died = []
+    old_threading, old_hook = mtask.threading, threading.excepthook
+    mtask.threading = Threading()
+    mp.Persistence.save_sensors = save
+    threading.excepthook = lambda a: died.append((type(a.exc_value).__name__, str(a.exc_value)[:80]))
+    gw = None
+    try:
+        gw = BaseSyncGateway(RecT(), persistence=True, persistence_file=path, protocol_version=version)
+        orig_logic = gw.logic
+
+        def logic(data):
+            if in_save[0]:
+                stats["saves_overlapping_a_message"] += 1
+            return orig_logic(data)
+
+        gw.logic = logic
+        gw.start_persistence()
+        gw.start()
+        lines = []
+        for n in range(1, 30):
+            lines.append(f"{n};255;0;0;17;{version}")
+            lines += [f"{n};{c};0;0;6;c{c}" for c in range(3)]
+        for _ in range(1200):
+            lines.append(rng.choice([gen.valid_line(rng, version), f"{rng.randint(1, 60)};255;0;0;17;{version}",
+                                     f"{rng.randint(1, 60)};{rng.randint(0, 5)};0;0;6;d", "255;255;3;0;3;",
+                                     f"{rng.randint(1, 29)};{rng.randint(0, 2)};1;0;0;{rng.random():.3f}"]))
+        for line in lines:
+            gw.tasks.add_job(gw.logic, line)
+            if rng.random() < 0.05:
+                time.sleep(0.001)
+        t_end = time.time() + 30
+        while gw.tasks.queue and time.time() < t_end:
+            time.sleep(0.005)
+        time.sleep(rng.choice([0.0, 0.003, 0.02]))
+        stop_exc = None
+        try:
+            gw.stop()
+        except Exception as exc:     # judged below: a stop() that raises has not done its job
+            stop_exc = exc
+        held = projection(gw.sensors)
+        time.sleep(0.05)        # a save that was in flight in the timer thread finishes
+    finally:
+        mtask.threading = old_threading
+        mp.Persistence.save_sensors = orig_save
+        threading.excepthook = old_hook
+    g2 = BaseSyncGateway(RecT(), persistence=True, persistence_file=path, protocol_version=version)
+    g2.tasks.persistence.safe_load_sensors()
+    got = projection(g2.sensors)
+    res.evals += 1
+    res.count("real_thread_runs")
+    res.count("real_thread_saves", stats["saves"])
+    res.count("real_thread_failed_saves", stats["save_errors"])
+    res.count("real_thread_messages_handled_during_a_save", stats["saves_overlapping_a_message"])
+    res.count("real_thread_messages", len(lines))
+    case = {"real_threads": True, "seed": job["seed"], "version": version, "ext": ext}
+    if stats["saves_overlapping_a_message"]:
+        res.nontrivial(("real-threads", version, ext, job["seed"]))
+    if stop_exc is not None:
+        # stop() collided with a periodic save that was in flight in the timer thread (both use the one temp file): the
+        # statement is about the file afterwards, which is judged below; the exception itself is reported, not judged
+        res.count("real_thread_stops_that_raised")
+        res.notes.append(f"real threads: stop() raised {type(stop_exc).__name__} ({core.exc_sig(stop_exc)}) while a periodic save was in flight; "
+                         f"file afterwards {'reproduces' if strict(got) == strict(held) else 'does NOT reproduce'} the state held")
+    if strict(got) != strict(held):
+        lost = sorted(set(held) - set(got))
+        changed = sorted(k for k in set(held) & set(got) if strict(held[k]) != strict(got[k]))
+        res.violation(f"stop-loses:real-threads:{'nodes' if lost else 'values'}:{ext}",
+                      f"real poll thread + real save timer ({stats['saves']} saves, {stats['saves_overlapping_a_message']} messages handled during a save): "
+                      f"after stop()+restart lost nodes {lost[:5]}, changed nodes {changed[:5]}", case)
+    if any(d for d in died if "interpreter shutdown" not in d[1]):
+        res.count("real_thread_exceptions_in_threads", len(died))
+    for f in os.listdir(tmp):
+        try:
+            os.remove(os.path.join(tmp, f))
+        except OSError:
+            pass
+
+
 def run(job):
     res = Result()
     tmp = tempfile.mkdtemp(prefix="vf-c14-")
     try:
+        if job["kind"] == "real-threads":
+            run_real_threads(job, res, tmp)
+            return res
         if job["kind"] == "last-change":
             v, fl = job["version"], job["flavour"]
             prefix = [["in", f"1;255;0;0;17;{v}"], ["in", "1;1;0;0;6;t"]]
             for name, line in state_lines(v).items():
                 for ext in ("json", "pickle"):
-                    for pat in ("only", "after-tick", "after-two-ticks", "tick-after", "during-tick"):
+                    for pat in ("only", "after-tick", "after-two-ticks", "tick-after", "during-tick", "during-tick-mid-write"):
                         cfg = {"version": v, "flavour": fl, "ext": ext, "callback": pat != "after-tick" or ext == "json"}
                         if pat == "only":
                             steps = prefix + [["in", line], ["stop"]]
@@ -95,6 +222,9 @@ def run(job):
                             steps = prefix + [["tick"], ["in", line], ["stop"]]
                         elif pat == "after-two-ticks":
                             steps = prefix + [["tick"], ["tick"], ["in", line], ["stop"]]
+                        elif pat == "during-tick-mid-write":
+                            # ... or has written only a part of the temp file so far
+                            steps = prefix + [["tick"], ["in", "1;255;3;0;0;55"], ["stop-during-tick", line, "mid-write"]]
                         elif pat == "during-tick":
                             # the change arrives, and stop() is called, while a periodic save is in flight in the timer thread
                             steps = prefix + [["tick"], ["in", "1;255;3;0;0;55"], ["stop-during-tick", line]]
@@ -149,6 +279,10 @@ def replay(case):
     res = Result()
     tmp = tempfile.mkdtemp(prefix="vf-c14-")
     try:
+        if case.get("real_threads"):
+            for k in range(3):      # real threads: not replayable bit for bit, the same workload is run three times
+                run_real_threads({"seed": case["seed"], "version": case["version"], "ext": case["ext"]}, res, tmp)
+            return res
         out = run_one(case["cfg"], case["steps"], tmp)
         judge(res, case["cfg"], case["steps"], out, "replay")
     finally:
@@ -165,13 +299,18 @@ def finish(agg, tier):
                 "restarts at arbitrary positions ended by the real stop(); in a quarter of them the device sends one more state-changing "
                 "line while stop() runs (right after a save completes, delivered only if the transport is still open), and in another quarter (threaded flavour) "
                 "stop() is called while a periodic save is in flight in the timer thread (it has serialised the state and waits in fsync; "
-                "one more state-changing line arrives in between; the timer thread finishes after stop() returned). Oracle: strict (type-tagged) projection held before "
+                "one more state-changing line arrives in between; the timer thread finishes after stop() returned); (c) real threads: the real "
+                "poll thread handles ~1300 messages while the real threading.Timer chain saves every 5 ms (instead of 10 s), then the queue "
+                "drains, stop(), fresh gateway, load. Oracle: strict (type-tagged) projection held before "
                 "stop() == projection of a fresh gateway after start_persistence() on the same file. distinct = (last "
                 "state-changing kind, tick pattern, format, flavour, version/history).",
         "floors": [("stops_judged", c.get("stops_judged", 0), 2000), ("last_change_cases", c.get("last_change_cases", 0), 600),
                    ("ticks", c.get("ticks", 0), 1500), ("stops_with_a_late_line", c.get("stops_with_a_late_line", 0), 150),
-                   ("stops_during_a_tick", c.get("stops_during_a_tick", 0), 100)],
+                   ("stops_during_a_tick", c.get("stops_during_a_tick", 0), 100),
+                   ("real_thread_runs", c.get("real_thread_runs", 0), 6),
+                   ("real_thread_messages_handled_during_a_save", c.get("real_thread_messages_handled_during_a_save", 0), 50)],
         "assumptions": ["save ticks = the real schedule_save body (threaded, captured Timer) / the real save loop on a virtual-time "
                         "asyncio loop with run_in_executor inline"],
-        "show": ["histories", "stops_judged", "last_change_cases", "ticks", "stops_during_a_tick"],
+        "show": ["histories", "stops_judged", "last_change_cases", "ticks", "stops_during_a_tick", "real_thread_runs", "real_thread_saves",
+                 "real_thread_failed_saves", "real_thread_messages_handled_during_a_save", "real_thread_stops_that_raised"],
     }
